@@ -196,6 +196,9 @@ def shape_flatten(item, ob):
 
 def run_shape(item, ob):
     fam, payload = item
+    if fam == 'pair':
+        from props import equiv
+        equiv.MIR = MIR; return equiv.run_item(item, ob)
     {'unary': shape_unary, 'window': shape_window, 'member': shape_member, 'flatten': shape_flatten}[fam](payload, ob)
 
 def main(tier, seed, t0):
@@ -210,12 +213,15 @@ def main(tier, seed, t0):
     for fn in MEMBER:
         for n in range(0, N + 1): items.append(('member', (fn, n)))
     for lens in ((), (0,), (2,), (1, 2), (0, 1, 0), (2, 0, 1)): items.append(('flatten', lens))
+    # functions that call back into the evaluator: the library function vs its executable specification written in noulith (props/equiv.py)
+    from props import equiv
+    equiv.preparse('C13'); items += equiv.items_for('C13')
     merged, per = pmap(run_shape, items, tier)
     return finish(PROP, tier, seed, merged, t0, th=th,
         kernels=['lib.rs: builtin closures reverse, tail, butlast, uncons, uncons?, unsnoc, unsnoc?, second, third, only, len, enumerate, prefixes, suffixes, window, unique, frequencies, flatten, in, ∈, not_in, ∉, contains, ∋, ∌ '
                  '(with multi!, uncons/unsnoc helpers, uniqued, prefixes/suffixes helpers, mut_seq_into_iter, RcVecIter, ObjKey equality and hashing)'],
         bounds={'inputs': f'lists of 0..{N} symbolic integers (every i64 value, every equality pattern between the elements); window sizes 1..3; flatten on lists of up to 3 rows',
                 'functions': f'{len(UNARY)} unary functions, window, flatten, 7 membership operators'},
-        outside=['functions that call back into the evaluator (map, filter, fold, sort with a comparator, zip with a function, group, …: struct-implemented builtins that take &REnv)', 'strings, vectors, bytes, dicts and streams as inputs',
-                 'sort / sort_on / transpose / take / drop / zip / ziplongest / pairwise / sum / product / min / max / ++ / join / split / words / lines', 'lists longer than the bound'],
+        outside=['callback-taking functions other than map, filter, fold, group (relation form), max / min (those six are compared with their specification written in noulith, props/equiv.py family C13)', 'strings, vectors, bytes, dicts and streams as inputs',
+                 'scan / sort / sort_on / transpose / take / drop / zip / ziplongest / pairwise / sum / product / ++ / join / split / words / lines', 'lists longer than the bound'],
         assumptions=['error constructors are opaque', 'HashMap / SipHash trusted as in C09 (equal hash traces = same bucket)'])
